@@ -125,8 +125,17 @@ fn s_mutants(t: &mut Tape, ctx: &mut Ctx) -> Result<(), Failure> {
     Ok(())
 }
 
+fn s_fuzztext(t: &mut Tape, ctx: &mut Ctx) -> Result<(), Failure> {
+    let s = crate::fuzzglue::text_of_tape(t);
+    if guard(&s).is_some() {
+        return Ok(());
+    }
+    reparse(&s, "fuzztext").map(|_| ())
+}
+
 pub fn streams() -> Vec<Stream> {
     vec![
+        Stream { name: "fuzztext", kind: Kind::Tape { cases: |_| 0, max_len: 4096, f: s_fuzztext }, isolate: false },
         Stream { name: "generated", kind: Kind::Tape { cases: |t: Tier| t.pick(15_000, 400_000), max_len: 320, f: s_generated }, isolate: false },
         Stream { name: "edited", kind: Kind::Tape { cases: |t: Tier| t.pick(40_000, 1_000_000), max_len: 340, f: s_edited }, isolate: false },
         Stream { name: "mutants", kind: Kind::Tape { cases: |t: Tier| t.pick(60_000, 1_500_000), max_len: 120, f: s_mutants }, isolate: false },
